@@ -10,17 +10,7 @@
 #include "parsec/sys/atomic.h"
 #include "cosched.h"
 
-/* Work-around (see NOTES.md): parsec_atomic_lock() carries its blocking hook only IN FRONT of the CAS spin loop.
- * Under the controlled scheduler a thread whose CAS fails after the hook was passed would spin for ever (an unfair
- * schedule, not a behaviour of the code). The replacement is the same spin lock built from the same real
- * primitives (trylock = the CAS), with the hook inside the loop. */
-static inline void c32_atomic_lock(parsec_atomic_lock_t *l)
-{
-    for (;;) { PARSEC_VERIF_LOCK_WAIT(l); if (parsec_atomic_trylock(l)) return; }
-}
-#define parsec_atomic_lock(l) c32_atomic_lock(l)
 #include "parsec/class/parsec_hash_table.c"
-#undef parsec_atomic_lock
 #include "parsec/utils/mca_param.h"
 #include <stdlib.h>
 #include <string.h>
